@@ -89,50 +89,65 @@ def _scratch_copy():
     return d
 
 
-def selftests(ctx):
+def _run_mutant(args):
+    """one self-test mutant in its own process: scratch copy, patch, extraction (serialised by the extraction lock),
+    the property's rules; returns the result record"""
+    prop, m, seed = args
     import importlib
     import run as runner
+    d = None
+    rec = dict(mutant=m["id"], expect=m["expect"], fired=False, applied=False, violations=[],
+               must_be_silent=bool(m.get("must_be_silent")))
+    try:
+        d = _scratch_copy()
+        patch = os.path.join(VERIF, m["patch"])
+        args_ = ["patch", "-p1", "-s", "-d", d, "-i", patch]
+        if m.get("reverse"):
+            args_.insert(1, "-R")
+        p = subprocess.run(args_, capture_output=True, text=True)
+        if p.returncode != 0:
+            rec["note"] = "patch no longer applies (skipped): " + (p.stdout + p.stderr)[-200:]
+            return rec
+        rec["applied"] = True
+        c2 = runner.Ctx(prop, "quick", d, seed)
+        mod = importlib.import_module("rules." + prop)
+        c2.config = getattr(mod, "QUICK_CONFIG", "core")
+        try:
+            mod.run(c2)
+        except Exception as e:  # a mutant that breaks an anchor also counts as detected (fail closed)
+            c2.bad("anchor", "exception:" + type(e).__name__, str(e)[:300])
+        keys = [v["full_key"] for v in c2.viol]
+        rec["violations"] = keys[:8]
+        rec["fired"] = any(any(k.startswith(e) for e in m["expect"]) for k in keys)
+        rec["fired_any"] = bool(keys)
+        if rec["must_be_silent"]:
+            rec["silent"] = not keys
+    except Exception as e:
+        rec["note"] = "self-test error: %s" % str(e)[:300]
+    finally:
+        if d:
+            shutil.rmtree(d, ignore_errors=True)
+    return rec
+
+
+def selftests(ctx):
     spec = json.load(open(os.path.join(VERIF, "selftest", "mutants.json")))
     mine = [m for m in spec["mutants"] if m["property"] == ctx.prop]
     limit = int(os.environ.get("VERIF_SELFTEST_LIMIT", "0"))  # 0 = all
     if limit:
         mine = mine[:limit]
-    results = []
-    for m in mine:
-        d = None
-        rec = dict(mutant=m["id"], expect=m["expect"], fired=False, applied=False, violations=[],
-                   must_be_silent=bool(m.get("must_be_silent")))
-        try:
-            d = _scratch_copy()
-            patch = os.path.join(VERIF, m["patch"])
-            args = ["git", "apply", "--unsafe-paths", "--directory", d] if False else ["patch", "-p1", "-s", "-d", d, "-i", patch]
-            if m.get("reverse"):
-                args.insert(1, "-R")
-            p = subprocess.run(args, capture_output=True, text=True)
-            if p.returncode != 0:
-                rec["note"] = "patch no longer applies (skipped): " + (p.stdout + p.stderr)[-200:]
-                results.append(rec)
-                continue
-            rec["applied"] = True
-            c2 = runner.Ctx(ctx.prop, "quick", d, ctx.seed)
-            mod = importlib.import_module("rules." + ctx.prop)
-            c2.config = getattr(mod, "QUICK_CONFIG", "core")
-            try:
-                mod.run(c2)
-            except Exception as e:  # a mutant that breaks an anchor also counts as detected (fail closed)
-                c2.bad("anchor", "exception:" + type(e).__name__, str(e)[:300])
-            keys = [v["full_key"] for v in c2.viol]
-            rec["violations"] = keys[:8]
-            rec["fired"] = any(any(k.startswith(e) for e in m["expect"]) for k in keys)
-            rec["fired_any"] = bool(keys)
-            if rec["must_be_silent"]:
-                rec["silent"] = not keys
-        except Exception as e:
-            rec["note"] = "self-test error: %s" % str(e)[:300]
-        finally:
-            if d:
-                shutil.rmtree(d, ignore_errors=True)
-        results.append(rec)
+    workers = max(1, min(int(os.environ.get("VERIF_SELFTEST_JOBS", "6")), len(mine) or 1))
+    jobs = [(ctx.prop, m, ctx.seed) for m in mine]
+    if workers == 1 or len(jobs) <= 1:
+        results = [_run_mutant(j) for j in jobs]
+    else:
+        # the fact extraction of each mutant is serialised by the extraction lock; the rule evaluation (pure Python,
+        # minutes for the call-graph rules) runs in parallel
+        import concurrent.futures
+        import multiprocessing
+        with concurrent.futures.ProcessPoolExecutor(max_workers=workers,
+                                                    mp_context=multiprocessing.get_context("fork")) as ex:
+            results = list(ex.map(_run_mutant, jobs))
     ctx.selftests.extend(results)
     ctx.info["selftest_summary"] = dict(mutants=len(results), applied=sum(1 for r in results if r["applied"]),
                                         fired_expected_rule=sum(1 for r in results if r["fired"]),
